@@ -3,9 +3,9 @@ package conf
 
 import (
 	"net/url"
-	"strconv"
 	"regexp"
 	"sort"
+	"strconv"
 	"strings"
 	"testing"
 	"time"
